@@ -117,9 +117,28 @@ func checkC16(c C16Case, rec *obs.Recorder) *obs.Violation {
 		if v := observe(); v != nil {
 			return v
 		}
+		if _, v := c16Lookup(c, tok, pub, want, history); v != nil {
+			return v
+		}
 	}
 
-	// key lookup
+	cls, v := c16Lookup(c, tok, pub, want, history)
+	if v != nil {
+		return v
+	}
+	rec.Label("lookup:" + cls)
+	rec.Label("id:" + map[bool]string{true: "absent", false: "present"}[want == nil])
+	if derived >= 1 && want != nil && len(c.Map) >= 2 {
+		if rec.NonTrivial(fmt.Sprintf("%s|%s|%v|%s|%s", idText(want), history, c.Map, c.Default, cls)) {
+			rec.Sample(map[string]any{"id": idText(want), "history": history, "map": c.Map, "default": c.Default, "expected": cls})
+		}
+	}
+	return nil
+}
+
+// c16Lookup verifies tok through every key-selection interface and compares with the
+// reference projection; returns the expected class.
+func c16Lookup(c C16Case, tok *biscuit.Biscuit, pub ed25519.PublicKey, want *uint32, history string) (string, *obs.Violation) {
 	keys := map[uint32]ed25519.PublicKey{}
 	for _, e := range c.Map {
 		if e.Right {
@@ -139,7 +158,6 @@ func checkC16(c C16Case, rec *obs.Recorder) *obs.Violation {
 		def = &d
 	}
 	sel, ok := ref.LookupKey(want, keys, def)
-	_, aerr := tok.AuthorizerFor(biscuit.WithRootPublicKeys(keys, def), bridge.WorldOpts())
 	cls := "no-key"
 	if ok {
 		cls = "wrong-key"
@@ -147,32 +165,64 @@ func checkC16(c C16Case, rec *obs.Recorder) *obs.Violation {
 			cls = "right-key"
 		}
 	}
-	rec.Label("lookup:" + cls)
-	rec.Label("id:" + map[bool]string{true: "absent", false: "present"}[want == nil])
-	if derived >= 1 && want != nil && len(keys) >= 2 {
-		if rec.NonTrivial(fmt.Sprintf("%s|%s|%v|%s|%s", idText(want), history, c.Map, c.Default, cls)) {
-			rec.Sample(map[string]any{"id": idText(want), "history": history, "map": c.Map, "default": c.Default, "expected": cls})
-		}
-	}
 	desc := fmt.Sprintf("token id %s after [%s], key map %v, default %s", idText(want), history, c.Map, c.Default)
-	switch cls {
-	case "no-key":
-		if aerr == nil || !errors.Is(aerr, biscuit.ErrNoPublicKeyAvailable) {
-			return obs.Violf("%s: no key is registered for this token, expected ErrNoPublicKeyAvailable, got %v", desc, aerr)
+	// the library's map-based projection, and a caller-written projection that answers
+	// (nil, nil) for "no such key" and records the identifier it was asked for
+	var asked []*uint32
+	custom := func(id *uint32) (ed25519.PublicKey, error) {
+		if id == nil {
+			asked = append(asked, nil)
+		} else {
+			v := *id
+			asked = append(asked, &v)
 		}
-	case "right-key":
-		if aerr != nil {
-			return obs.ViolK("lookup-right", "%s: the key registered for this token is its root key, AuthorizerFor returned %v", desc, aerr)
+		k, ok := ref.LookupKey(id, keys, def)
+		if !ok {
+			return nil, nil
 		}
-	case "wrong-key":
-		if aerr == nil {
-			return obs.Violf("%s: the key registered for this token is not its root key, AuthorizerFor succeeded", desc)
+		return k, nil
+	}
+	for _, via := range []string{"WithRootPublicKeys", "custom projection"} {
+		var aerr error
+		if via == "custom projection" {
+			_, aerr = tok.AuthorizerFor(custom, bridge.WorldOpts())
+			if len(asked) != 1 || !sameID(asked[0], want) {
+				ids := []string{}
+				for _, a := range asked {
+					ids = append(ids, idText(a))
+				}
+				return cls, obs.ViolK("projection-arg", "%s: the key source was asked for %v, the token's identifier is %s", desc, ids, idText(want))
+			}
+		} else {
+			_, aerr = tok.AuthorizerFor(biscuit.WithRootPublicKeys(keys, def), bridge.WorldOpts())
 		}
-		if errors.Is(aerr, biscuit.ErrNoPublicKeyAvailable) {
-			return obs.Violf("%s: a (wrong) key is registered for this token, yet the error is ErrNoPublicKeyAvailable", desc)
+		switch cls {
+		case "no-key":
+			if aerr == nil || !errors.Is(aerr, biscuit.ErrNoPublicKeyAvailable) {
+				return cls, obs.Violf("%s (%s): no key is registered for this token, expected ErrNoPublicKeyAvailable, got %v", desc, via, aerr)
+			}
+		case "right-key":
+			if aerr != nil {
+				return cls, obs.ViolK("lookup-right", "%s (%s): the key registered for this token is its root key, AuthorizerFor returned %v", desc, via, aerr)
+			}
+		case "wrong-key":
+			if aerr == nil {
+				return cls, obs.Violf("%s (%s): the key registered for this token is not its root key, AuthorizerFor succeeded", desc, via)
+			}
+			if errors.Is(aerr, biscuit.ErrNoPublicKeyAvailable) {
+				return cls, obs.Violf("%s (%s): a (wrong) key is registered for this token, yet the error is ErrNoPublicKeyAvailable", desc, via)
+			}
 		}
 	}
-	return nil
+	// a single key ignores the identifier altogether
+	if _, err := tok.AuthorizerFor(biscuit.WithSingularRootPublicKey(pub), bridge.WorldOpts()); err != nil {
+		return cls, obs.Violf("%s: WithSingularRootPublicKey(root) is refused: %v", desc, err)
+	}
+	other, _ := bridge.RootKey(1<<42 + c.Spec.RootSeed)
+	if _, err := tok.AuthorizerFor(biscuit.WithSingularRootPublicKey(other), bridge.WorldOpts()); err == nil || errors.Is(err, biscuit.ErrNoPublicKeyAvailable) {
+		return cls, obs.Violf("%s: WithSingularRootPublicKey(another key) gives %v", desc, err)
+	}
+	return cls, nil
 }
 
 func drawC16(t *rapid.T) C16Case {
@@ -222,7 +272,7 @@ func drawC16(t *rapid.T) C16Case {
 func TestC16(t *testing.T) {
 	rec := obs.New("C16")
 	defer rec.Flush(true)
-	rec.SetExtra("rule", "rapid: identifier in {absent, 0, 1, 2, 2^31, 2^32-2, 2^32-1, random} (given before the random-source option for odd ids, after it for even ids) x derivation history of 0-6 append / seal / serialize+unmarshal steps x key map of 0-4 entries (right or wrong key under the token's id, under id+-1, under unrelated ids) x default key {none, right, wrong}. Oracle: RootKeyID() and the independently decoded rootKeyId equal the creation id after every step; AuthorizerFor(WithRootPublicKeys) succeeds iff the reference projection selects the real root key, fails with ErrNoPublicKeyAvailable iff it selects nothing, fails with another error iff it selects a wrong key. Non-trivial = derived token (>=1 append or seal) carrying an id, looked up in a map with >= 2 entries; distinct by (id, history, map, default).")
+	rec.SetExtra("rule", "rapid: identifier in {absent, 0, 1, 2, 2^31, 2^32-2, 2^32-1, random} (given before the random-source option for odd ids, after it for even ids) x derivation history of 0-6 append / seal / serialize+unmarshal steps x key map of 0-4 entries (right or wrong key under the token's id, under id+-1, under unrelated ids) x default key {none, right, wrong}. Oracle: RootKeyID() and the independently decoded rootKeyId equal the creation id after every step; after every step AuthorizerFor, through WithRootPublicKeys and through a caller-written projection (which must be asked exactly once, for exactly the token's identifier, and answers (nil, nil) when it has no key), succeeds iff the reference projection selects the real root key, fails with ErrNoPublicKeyAvailable iff it selects nothing, fails with another error iff it selects a wrong key; WithSingularRootPublicKey ignores the identifier. Non-trivial = derived token (>=1 append or seal) carrying an id, looked up in a map with >= 2 entries; distinct by (id, history, map, default).")
 	rec.SetExtra("assumptions", []string{"the independent wire reader gives the serialized identifier"})
 	harness.RunWith(t, harness.Spec[C16Case]{ID: "C16", Draw: drawC16, Check: checkC16}, rec)
 }
